@@ -7,6 +7,7 @@ import (
 
 	"verif/core"
 	"verif/model"
+	"verif/runner"
 	"verif/smfdec"
 	"verif/theory"
 )
@@ -153,6 +154,42 @@ func checkC13(c *core.Ctx) {
 		if c.WantSample() {
 			c.Sample(map[string]any{"cmd": "info key describe --key " + ks, "notes": notes, "flat": flat, "sharp": sharp})
 		}
+	})
+
+	// the spellings without a scale are also refused where note names are converted (the converter
+	// needs the scale): by flag, on a chord and on a rest
+	c.Stream("refuse", len(spell)*3, func(i int, _ *rand.Rand) {
+		ks := spell[i%len(spell)]
+		k, err := theory.ParseKey(ks)
+		if err != nil || theory.IsSupported(ks) || (k.Signature() >= -7 && k.Signature() <= 7) {
+			return
+		}
+		var res *runner.Result
+		var how string
+		switch i / len(spell) {
+		case 0:
+			how = "--key " + ks
+			res = run(c, []byte("C[1]"), "text", "conv", "syllable", "--key", ks)
+		case 1:
+			how = "C[1]{key=" + ks + "}"
+			res = run(c, []byte(how), "text", "conv", "syllable")
+		default:
+			how = "R[1]{key=" + ks + "} C[1]"
+			res = run(c, []byte(how), "text", "conv", "syllable")
+		}
+		c.Eval(1)
+		if infra(c, res) {
+			return
+		}
+		if a := abnormal(res); a != "" {
+			c.Violate("refuse", i, "refuse:"+ks+":abnormal", "text conv syllable "+a, obs(res))
+			return
+		}
+		if res.OK() {
+			c.Violate("refuse", i, fmt.Sprintf("refuse:%s:%d", ks, i/len(spell)), fmt.Sprintf("key %s has no scale, but `text conv syllable` accepts %q", ks, how), obs(res))
+			return
+		}
+		c.Nontrivial("refuse:" + how)
 	})
 
 	// relative pairs share notes (as sets) and signature, judged on crd's own reports
